@@ -19,6 +19,8 @@ ALPHABETS = [
     ("bound", BOUND + [97]), ("cased", CASED), ("digits", DIGITS + [97, 45]), ("wordy", WORDY + [97, 32, 49]),
     ("sgr", SGR + [97]), ("mixed", [97, 98, 49, 50, 32, 46, 0x5c, 0xe9, 0x1f4a9, 0x301, 95]),
     ("a-h", list(range(97, 105))),
+    # tokens may be tuples: multi-code-point clusters that grex keeps whole (no mark, no control character)
+    ("clusters", [(0x1f1e9, 0x1f1ea), (0x1f1eb, 0x1f1f7), (0x1f44d, 0x1f3fd), 0x1f44d, (0x1100, 0x1161), (0x0e01, 0x0e33), 97, 120, 32, 33, 55]),
     ("caret", [0x5e, 0x5f, 0x60, 97, 98, 0x7e, 0x7c]), ("metaext", [ord(c) for c in "(+|.a"] + [0xff9e, 0x1f3fd, 0xd4e, 0x5c]), ("dollar", [0x24, 0x25, 0x26, 0x23, 0x5d, 0x5b, 0x2d]),
 ]
 
@@ -44,8 +46,33 @@ def gen_strings(rnd, alpha):
     shape = rnd.random()
     out = []
     def word(lo, hi):
-        return [rnd.choice(alpha) for _ in range(rnd.randint(lo, hi))]
-    if shape < 0.35:          # shared prefix/suffix families
+        w = []
+        for _ in range(rnd.randint(lo, hi)):
+            t = rnd.choice(alpha)
+            w.extend(t if isinstance(t, tuple) else [t])
+        return w
+    def tok():
+        t = rnd.choice(alpha)
+        return list(t) if isinstance(t, tuple) else [t]
+    def runs(n):
+        w = []; prev = None
+        for _ in range(n):
+            t = tok()
+            if t == prev:
+                continue
+            prev = t
+            w += t * rnd.choice([1, 1, 2, 2, 3, 3, 4])
+        return w
+    if shape < 0.07:          # run-length families: several prefixes x one symbol repeated 1..4 times (F13's region:
+        pres = [runs(rnd.randint(1, 2)) for _ in range(rnd.randint(2, 3))]   # edges widened more than once)
+        t = tok()
+        for p in pres:
+            for kk in rnd.sample([1, 2, 3, 4], rnd.randint(1, 3)):
+                out.append(p + t * kk + (runs(1) if rnd.random() < 0.25 else []))
+    elif shape < 0.12:        # independent words made of runs
+        for _ in range(rnd.randint(3, 7)):
+            out.append(runs(rnd.randint(1, 4)))
+    elif shape < 0.35:        # shared prefix/suffix families
         base = word(0, 3); suf = word(0, 2)
         for _ in range(k):
             s = (base if rnd.random() < 0.6 else []) + word(0 if rnd.random() < 0.08 else 1, 4) + (suf if rnd.random() < 0.4 else [])
